@@ -51,6 +51,11 @@ def deep_helper_stacks():
         out.append(g.Stack([g.Layer("clamp") for _ in range(k)] + [g.Layer("morton_port", i="std::size_t", n=1), g.Layer("array", t="float", m=1)]))
     for k in range(1, 9):
         out.append(g.Stack([g.Layer("affine") if q % 2 else g.Layer("clamp") for q in range(k)] + [g.Layer("constant", s="float", n=1, t="double", m=2)]))
+    # adjacent layers with the SAME configuration type and different values (a swapped pair of positional arguments still type-checks)
+    for k in range(1, 10):
+        out.append(g.Stack([g.Layer("affine") for _ in range(k)] + [g.Layer("identity", s="float", n=1)]))
+    for k in range(2, 9):
+        out.append(g.Stack([g.Layer("shuffle", perm=[0]) if q % 3 == 2 else g.Layer("affine") for q in range(k)] + [g.Layer("probe_fn", s="double", n=1, t="float", m=2)]))
     return [s for s in out if s.ok and g.view_fits(s)]
 
 
